@@ -19,7 +19,7 @@ CONSTANTS
   GCs <- One1
   TCoefs <- D_TC2
   Qs <- K_Q2
-  Vs <- P_V1
+  Vs <- P_V2
   As <- One0
   Gravs <- K_G1
   DisSets <- P_Dis
@@ -30,6 +30,13 @@ CONSTANTS
   TenZero <- NoTz
   SpPairs <- NoSpS
   SpArms <- One0
+  StiffPolys <- P_KP1
+  DampPolys <- P_DP1
+  TenKPolys <- P_TKP1
+  TenDPolys <- P_TDP1
+  SpStiffs <- T000
+  SpRanges <- Rng0
+  SpDamps <- T000
   Level = 3
   Tie = FALSE
   Rand = FALSE
@@ -41,4 +48,6 @@ INVARIANT FullGravcompBalances
 INVARIANT RestAtReferenceIsForceFree
 INVARIANT KaneIsRecursive
 INVARIANT JacIsDerivative
+INVARIANT DamperIsOdd
+INVARIANT SpatialJacIsDerivative
 CHECK_DEADLOCK FALSE
